@@ -17,10 +17,9 @@ for i in 1 2 3; do r=$(PYTHONPATH=$WT/src /venv/bin/python -m pytest -q -p no:ca
 cd /verif
 for c in "$@"; do
   echo "== check $c on patched tree"
-  VERIF_REPO=$WT ./check $c --tier ${TIER:-quick} --procs ${PROCS:-10} > $WT.check-$c.log 2>&1; echo "exit=$?"
+  VERIF_OUT=$WT.out VERIF_REPO=$WT ./check $c --tier ${TIER:-quick} --procs ${PROCS:-10} > $WT.check-$c.log 2>&1; echo "exit=$?"
   grep -v "^VIOLATION" $WT.check-$c.log | grep "^  " | head -4 | cut -c1-260
   tail -1 $WT.check-$c.log | cut -c1-200
 done
 git -C $WT checkout -q -- . ; git -C $WT clean -fdq
-# restore evidence written by the mutant runs
-cd /verif && git checkout -q -- evidence 2>/dev/null; rm -rf /verif/replays
+rm -rf $WT.out
